@@ -304,6 +304,15 @@ otTransferFoamInfoToSyme(Syme syme, Foam unit)
 	
 	if (symeConstLib(syme) == NULL &&
 	    cNum != SYME_NUMBER_UNASSIGNED) {
+		if (cNum < 0 || cNum >= foamArgc(unit->foamUnit.defs)) {
+			/* A forward constant number that was never resolved
+			 * (genfoam.c:gen0FwdProgNum counts down from
+			 * SYME_NUMBER_UNASSIGNED - 1): there is no definition
+			 * to look at, and indexing defs with it reads far
+			 * beyond the vector. */
+			otSymeConstClrEnvIndep(syme);
+			return;
+		}
 		def = unit->foamUnit.defs->foamDDef.argv[cNum];
 		prog = def->foamDef.rhs;
 		if (foamTag(prog) == FOAM_Prog && 
